@@ -8,7 +8,11 @@ def main():
     for f in sorted(glob.glob(os.path.join(os.path.dirname(__file__), "g_*.py"))):
         mod = importlib.import_module("tools.gen." + os.path.basename(f)[:-3])
         if hasattr(mod, "generate"):
-            ok = bool(mod.generate(ctx)) and ok
+            try:
+                ok = bool(mod.generate(ctx)) and ok
+            except Exception as e:          # one broken generator must not stop the others
+                ok = False
+                ctx.obligation("gen", "generator %s ran" % os.path.basename(f), False, repr(e))
     bad = ctx.failed_obligations()
     for o in bad:
         print("generator failure:", o["name"], o["detail"][:500])
